@@ -128,7 +128,7 @@ def check_property_file(ctx, pid):
     p = subprocess.run(cmd, cwd=COQ_DIR, stdout=subprocess.PIPE, stderr=subprocess.STDOUT, text=True)
     ok = p.returncode == 0
     closed = len(re.findall(r"Closed under the global context", p.stdout))
-    axioms = sorted(set(re.findall(r"^(\w[\w.]*)\s*:", p.stdout, flags=re.M)) - set(theorems))
+    axioms = sorted(set(re.findall(r"^(\w[\w.]*)\s*:", p.stdout, flags=re.M)) - set(theorems) - {"Warning"})
     ctx.log("property file %s: %s, %d theorems, %d closed, axioms=%s"
             % (pid, "ok" if ok else "FAILED", len(theorems), closed, axioms))
     return ok, theorems, {"closed_under_global_context": closed, "axioms": axioms,
